@@ -3,7 +3,15 @@
 // Bounds (quick | thorough):
 //
 //	files: width W in {2,3} | {2,3,4,5}, chunker size-4, EVERY chunk count 0..W^3+W (last chunk
-//	  short), plus width 174 with 175 and 400 chunks;
+//	  short), plus width 174 with 175 and 400 chunks; content from VERIF_SEED (chunks distinct),
+//	  case ids "file:W=<w>,n=<n>";
+//	repetitive files: the same (W,n) range (n >= 1), last chunk short (n*4-1 bytes) AND full
+//	  (n*4 bytes), content classes zeros (all-zero bytes), period<p> for p in 1..4 (chunk i is
+//	  pattern[i mod p]) and halves (ceil(n/2) random chunks, then the same chunks again): one
+//	  interior node then links the SAME block / the same subtree several times and every
+//	  occurrence counts. Case ids "file:W=<w>,n=<n>,content=<class>"; the tail variant goes into
+//	  the detail and a failing case prints ONE VP-FAIL line (first inconsistency in full, the
+//	  number of further ones and the other failing variant after it);
 //	directories: plain and sharded (fanouts {8,256} | {8,16,64,256,1024}) over 1, 7 colliding,
 //	  40 and 300 | 3000 entries whose targets are real stored files / symlinks / directories of
 //	  different sizes; a nested tree (plain root -> sharded dir -> plain dir -> files) and a
@@ -21,6 +29,7 @@ import (
 	"fmt"
 	"os"
 	"path/filepath"
+	"strings"
 	"testing"
 
 	upb "github.com/ipfs/boxo/ipld/unixfs/pb"
@@ -33,14 +42,15 @@ import (
 
 type sums struct{ stored, content uint64 }
 
-// audit walks the DAG under l and reports every inconsistency; memoised per block.
-func audit(r *vp.Run, id string, st *vp.Store, l datamodel.Link, memo map[string]sums) sums {
+// audit walks the DAG under l and hands every inconsistency to fail; memoised per block (the
+// memo only caches a block's sums: a block linked twice is still ADDED twice by its parent).
+func audit(r *vp.Run, fail func(format string, args ...any), st *vp.Store, l datamodel.Link, memo map[string]sums) sums {
 	if s, ok := memo[l.String()]; ok {
 		return s
 	}
 	raw, ok := st.Raw(l)
 	if !ok {
-		r.Fail(id, "block %s is linked but not stored", vp.Short(l.String()))
+		fail("block %s is linked but not stored", vp.Short(l.String()))
 		return sums{}
 	}
 	r.Eval("")
@@ -52,36 +62,36 @@ func audit(r *vp.Run, id string, st *vp.Store, l datamodel.Link, memo map[string
 	}
 	b, err := vp.ParsePB(raw)
 	if err != nil {
-		r.Fail(id, "block %s: %v", vp.Short(l.String()), err)
+		fail("block %s: %v", vp.Short(l.String()), err)
 		return out
 	}
 	u, err := b.UnixFS()
 	if err != nil {
-		r.Fail(id, "block %s: UnixFS data: %v", vp.Short(l.String()), err)
+		fail("block %s: UnixFS data: %v", vp.Short(l.String()), err)
 		return out
 	}
 	isFile := u.GetType() == upb.Data_File || u.GetType() == upb.Data_Raw
 	if isFile {
 		out.content = uint64(len(u.Data))
 		if len(b.Links) > 0 && len(u.Blocksizes) != len(b.Links) {
-			r.Fail(id, "file node %s: %d BlockSizes for %d links", vp.Short(l.String()), len(u.Blocksizes), len(b.Links))
+			fail("file node %s: %d BlockSizes for %d links", vp.Short(l.String()), len(u.Blocksizes), len(b.Links))
 		}
 	}
 	for i, k := range b.Links {
-		c := audit(r, id, st, k.Link(), memo)
+		c := audit(r, fail, st, k.Link(), memo)
 		out.stored += c.stored
 		if !k.HasTsize || k.Tsize != c.stored {
-			r.Fail(id, "block %s link %d (%q): Tsize %d (present=%v), target's cumulative size is %d", vp.Short(l.String()), i, k.Name, k.Tsize, k.HasTsize, c.stored)
+			fail("block %s link %d (%q): Tsize %d (present=%v), target's cumulative size is %d", vp.Short(l.String()), i, k.Name, k.Tsize, k.HasTsize, c.stored)
 		}
 		if isFile {
 			out.content += c.content
 			if i < len(u.Blocksizes) && u.Blocksizes[i] != c.content {
-				r.Fail(id, "file node %s: BlockSizes[%d]=%d, child holds %d content bytes", vp.Short(l.String()), i, u.Blocksizes[i], c.content)
+				fail("file node %s: BlockSizes[%d]=%d, child holds %d content bytes", vp.Short(l.String()), i, u.Blocksizes[i], c.content)
 			}
 		}
 	}
 	if isFile && len(b.Links) > 0 && (u.Filesize == nil || u.GetFilesize() != out.content) {
-		r.Fail(id, "file node %s: FileSize %d (present=%v), %d content bytes beneath", vp.Short(l.String()), u.GetFilesize(), u.Filesize != nil, out.content)
+		fail("file node %s: FileSize %d (present=%v), %d content bytes beneath", vp.Short(l.String()), u.GetFilesize(), u.Filesize != nil, out.content)
 	}
 	memo[l.String()] = out
 	return out
@@ -90,7 +100,7 @@ func audit(r *vp.Run, id string, st *vp.Store, l datamodel.Link, memo map[string
 func check(r *vp.Run, id string, st *vp.Store, root datamodel.Link, size uint64, wantContent int) {
 	r.Eval(id)
 	r.Guard(id, func() {
-		s := audit(r, id, st, root, map[string]sums{})
+		s := audit(r, func(f string, a ...any) { r.Fail(id, f, a...) }, st, root, map[string]sums{})
 		if s.stored != size {
 			r.Fail(id, "builder returned size %d, stored tree sums to %d", size, s.stored)
 		}
@@ -98,6 +108,101 @@ func check(r *vp.Run, id string, st *vp.Store, root datamodel.Link, size uint64,
 			r.Fail(id, "tree holds %d content bytes, input had %d", s.content, wantContent)
 		}
 	})
+}
+
+// class generates n chunks of 4 bytes each (the caller cuts a short tail off).
+type class struct {
+	name string
+	gen  func(n int, salt int64) []byte
+}
+
+const chunkLen = 4
+
+func periodic(p int) func(n int, salt int64) []byte {
+	return func(n int, salt int64) []byte {
+		pat := vp.Content(p*chunkLen, salt)
+		pat[0] |= 1 // not the zeros class
+		for j := 1; j < p; j++ {
+			pat[j*chunkLen] = pat[0] + byte(2*j) // the p chunk patterns differ pairwise
+		}
+		out := make([]byte, 0, n*chunkLen)
+		for i := 0; i < n; i++ {
+			j := i % p
+			out = append(out, pat[j*chunkLen:(j+1)*chunkLen]...)
+		}
+		return out
+	}
+}
+
+var classes = []class{
+	{"zeros", func(n int, _ int64) []byte { return make([]byte, n*chunkLen) }},
+	{"period1", periodic(1)},
+	{"period2", periodic(2)},
+	{"period3", periodic(3)},
+	{"period4", periodic(4)},
+	{"halves", func(n int, salt int64) []byte {
+		h := vp.Content((n+1)/2*chunkLen, salt)
+		return append(append([]byte(nil), h...), h...)[:n*chunkLen]
+	}},
+}
+
+// checkRepetitive builds the class's content for n chunks with a short and a full last chunk and
+// audits both trees; whatever goes wrong is folded into ONE failure for the case id.
+func checkRepetitive(r *vp.Run, id string, cl class, w, n int) {
+	var first string    // first inconsistency, with its variant
+	var more int        // further inconsistencies of that variant
+	var others []string // further failing variants
+	for _, short := range []int{1, 0} {
+		size := n*chunkLen - short
+		variant := fmt.Sprintf("len=%d", size)
+		r.Eval(id + "," + variant)
+		content := cl.gen(n, int64(w*1000+n))[:size]
+		var probs []string
+		note := func(f string, a ...any) { probs = append(probs, fmt.Sprintf(f, a...)) }
+		func() {
+			defer func() {
+				if p := recover(); p != nil {
+					note("panic: %v", p)
+				}
+			}()
+			st := vp.NewStore()
+			l, sz, err := builder.BuildUnixFSFile(bytes.NewReader(content), "size-4", st.LS())
+			if err != nil {
+				note("build error %v", err)
+				return
+			}
+			if w == 2 && n == w*w+1 && short == 0 && cl.name == "zeros" {
+				r.Sample(map[string]any{"case": id, "variant": variant, "link": l.String(), "size": sz, "blocks": st.Len()})
+			}
+			s := audit(r, note, st, l, map[string]sums{})
+			if s.stored != sz {
+				note("builder returned size %d, stored tree sums to %d", sz, s.stored)
+			}
+			if s.content != uint64(size) {
+				note("tree holds %d content bytes, input had %d", s.content, size)
+			}
+			if got, _, _, err := st.FileSpans(l); err != nil || !bytes.Equal(got, content) {
+				note("stored tree does not spell the input back (err=%v)", err)
+			}
+		}()
+		switch {
+		case len(probs) == 0:
+		case first == "":
+			first, more = variant+": "+probs[0], len(probs)-1
+		default:
+			others = append(others, fmt.Sprintf("%s (%d inconsistencies)", variant, len(probs)))
+		}
+	}
+	if first == "" {
+		return
+	}
+	if more > 0 {
+		first += fmt.Sprintf(" [+%d further inconsistencies]", more)
+	}
+	if len(others) > 0 {
+		first += " [also fails for: " + strings.Join(others, "; ") + "]"
+	}
+	r.Fail(id, "%s", first)
 }
 
 func TestBounded(t *testing.T) {
@@ -127,6 +232,11 @@ func TestBounded(t *testing.T) {
 				r.Sample(map[string]any{"case": id, "link": l.String(), "size": sz, "blocks": st.Len()})
 			}
 			check(r, id, st, l, sz, size)
+			for _, cl := range classes {
+				if n > 0 {
+					checkRepetitive(r, id+",content="+cl.name, cl, w, n)
+				}
+			}
 		}
 	}
 
